@@ -8,6 +8,22 @@ CHECKS = {
    tech="TLA+ Draw.tla: TLC exhaustive over all bounds/words at small widths + Apalache lemma at width 32; TLC trace validation of directed draws of the real sampler; full 2^32 sweeps of the real sampler validated by TLC",
    text="Draw.tla is model-checked exhaustively (every bound, every raw word, rejection chains, short reads, faults) for widths up to 6 (thorough 10) and its threshold lemma is proved by Apalache for all n in [1,2^32) at the real width. The real randomUint32n is bound to it by TLC validation of thousands of recorded draws (threshold, comparison, mask, byte order, word width pinned per event) and the counting statement itself is measured on the real code by presenting all 2^32 raw words (first word and continuation after a rejection) for selected bounds; deviations from the specified sampler shape are decided exactly by such sweeps before any alarm.",
    note="Trusts Apalache/Z3 for the lemma, TLC, the harness's scripted crypto/rand.Reader and limb/witness projection (witnesses are re-checked by TLC by multiplication). Bounds that are not swept rely on the shaped relation + lemma."),
+ "C02": dict(cat="model_checking", ref="DESIGN.md section 5 C02",
+   tech="TLA+ CharGen.tla model-checked by TLC; exact output distribution of the real Generate by choice-tree enumeration under a scripted random source; TLC trace validation sums leaf masses per output (CharTrace.tla)",
+   text="CharGen.tla (one action per guard/draw/filter of CharRecipe.Generate) is model-checked over a recipe universe with every overlap pattern: one index tuple per valid string, count = |ValidStrings|, a rejected candidate is discarded entirely. The real Generate is bound to it by enumerating its complete choice tree (every index of every draw, 1-3 attempts) for TLC-generated and seeded recipes incl. multi-byte and duplicated characters; TLC sums the exact leaf masses per output string and requires support = the specification's valid set and all masses equal, and replays the CharGen machine along every recorded index path. The bounds those recipes draw with are checked against Draw.tla and decided by full 2^32 sweeps if they deviate.",
+   note="Exact for the small recipes enumerated (alphabets <= ~50, lengths <= 3); relies on C01 for index -> probability 1/n and on the verif hook that pins the otherwise per-call alphabet order."),
+ "C03": dict(cat="model_checking", ref="DESIGN.md section 5 C03",
+   tech="TLA+ CharSets.tla theorems model-checked over all 2^15 class-flag triples; TLC trace validation of the real Alphabet() and Generate outputs by membership",
+   text="CharSets.tla defines the alphabet and validity of a recipe; TLC checks 'exclusion wins', 'alphabet = (allowed + required) - excluded', sortedness and duplicate-freedom over all 2^15 allow/require/exclude triples x custom-string variants, and OutValid on the CharGen machine. The real library is bound to it: for flag triples (thorough: all 32768) x custom variants (multi-byte, duplicates, overlaps) x lengths 1..40 the real Alphabet() and Generate are run on tapes forcing the first index, the last index, failing first attempts and seeded paths, and every recorded alphabet, token sequence and string is validated by TLC against the specification.",
+   note="Membership checks, not enumeration, for large alphabets; string projection to code points by the harness is trusted."),
+ "C07": dict(cat="model_checking", ref="DESIGN.md section 5 C07",
+   tech="TLA+ CharCount.tla (inclusion-exclusion over BigNat, integer-only log2 bracket) model-checked against brute-force enumeration; TLC trace validation of the real exact count and Entropy()",
+   text="The counting formula is model-checked against its definition (|ValidStrings| by brute force) for every overlap pattern of up to 3 required sets; BigNat and the outward-rounded log2 bracket are self-checked by TLC. For TLC-generated and seeded real-class recipes (0-8 required sets overlapping each other and the class flags, lengths to 64) TLC recomputes the exact count and requires the library's big-integer count to be equal and Entropy() to be within 2 float32 ulps of log2(count), never NaN, -Inf iff no string satisfies the recipe, identical on repeated calls; lengths 100-5000 are compared by 12 modular fingerprints.",
+   note="Long lengths are a fingerprint comparison, not an identity; the log2 bracket is TLC-checked only on small arguments and known constants."),
+ "C13": dict(cat="model_checking", ref="DESIGN.md section 5 C13",
+   tech="TLA+ CharGen.tla/WordGen.tla ErrIff, TrialsBounded model-checked; TLC trace validation of real Generate outcomes (ok / error class / panic), attempt counts and SuccessProbability against the exact fraction",
+   text="ErrIff (error exactly for non-positive length, empty alphabet, missing/empty list, or an unacceptable failure rate), TrialsBounded and 'no panic without a source fault' are invariants of the generator machines, model-checked with MaxFailRate = 1 and with the default refusal band. The real Generate is run for zero values, non-positive lengths, empty alphabets, overlapping/equal/emptied required sets, a ladder of recipes across the refusal threshold, attempt budgets 1..350 on tapes where every attempt fails, and wordlist recipes without or with empty lists and failing separators; TLC validates every recorded outcome, the number of draws (<= MaxTrials x Length) and SuccessProbability() against count/|A|^L.",
+   note="The refusal rule is decided as a band (must refuse <= 0.085, must not >= 0.11); a required set emptied by exclusion: both outcomes accepted."),
 }
 PLANNED = {}
 props = [json.loads(l) for l in open(V + "/properties.jsonl")]
